@@ -719,12 +719,16 @@ def describe_roots(roots):
     return ', '.join(sorted(set(out)))
 
 
-def run_r9(run, funcs=None, rule='R9'):
+def run_r9(run, funcs=None, rule='R9', report_only=None):
+    """report_only: if given, summaries are still computed over `funcs` (whole package) but obligations are recorded only
+    for the functions whose key is in this set."""
     prog = run.prog
     funcs = funcs or [f for f in prog.analysed_functions()]
     pa = Purity(prog).analyse_all(funcs)
     nev = 0
     for f in funcs:
+        if report_only is not None and f.key not in report_only:
+            continue
         evs = pa.events.get(f.key, [])
         bad = []
         for ev in evs:
@@ -748,6 +752,8 @@ def run_r9(run, funcs=None, rule='R9'):
                       'non-mutating method or module state' % n_writes, f=f, nontrivial=n_writes > 0)
     # determinism clause
     for f in funcs:
+        if report_only is not None and f.key not in report_only:
+            continue
         fi = FuncInfo.of(f)
         hits = []
         for n in own_walk(f.node):
